@@ -576,6 +576,30 @@ func enumerateC20(cases []tdata.Case, emit func(*c20Input)) {
 			}
 		}
 	}
+	// The configuration only exists in a sibling part: the text of the
+	// main code file is moved to the raw file or to the IPv6 file, the main
+	// file is empty (IPv6-only device, device described by raw text only);
+	// the same with the device file empty.
+	perModel := make(map[string]int)
+	for _, c := range cases {
+		if c.Device == "" || c.Descr.Scenario != "" || c.Files["router"] == "" || perModel[c.Model] >= 3 {
+			continue
+		}
+		perModel[c.Model]++
+		for _, dst := range []string{"router.raw", "ipv6/router"} {
+			for _, emptyDev := range []bool{false, true} {
+				files := copyFiles(c.Files)
+				files[dst] = files["router"]
+				files["router"] = ""
+				dev := c.Device
+				if emptyDev {
+					dev = ""
+				}
+				out(&c20Input{Model: c.Model, Device: dev, Files: files,
+					Origin: fmt.Sprintf("moved:router->%s:empty-device=%v", dst, emptyDev), Family: "G", Prog: "drc"})
+			}
+		}
+	}
 	// Status file family for missing-approve.
 	goodStatus := `{"approve":{"result":"OK","policy":"p0","time":1700000000},"compare":{"result":"UPTODATE","policy":"p1","time":1700000100}}`
 	st := func(text, desc string) {
@@ -603,7 +627,7 @@ func checkC20(tier, replay string) int {
 		"per line all word-prefix truncations, single-token deletions, duplications, adjacent swaps, " +
 		"indentation +-1, doubled blank / TAB between words, trailing blank / CR, line drop/dup (family L), each mutated text also supplied at the three other " +
 		"argument positions device/netspoc/ipv6/raw (X), JSON/XML structural mutations (S, SX), info file " +
-		"mutations (I), garbage files (G), status file truncations/garbage for missing-approve (ST), " +
+		"mutations (I), garbage files and configurations that only exist in the raw / IPv6 part next to an empty main file (G), status file truncations/garbage for missing-approve (ST), " +
 		"info files with every combination of 0-3 names and 0-3 addresses and JSON structure mutations in live compare sessions of all five device types through drc and do-approve, with a reachable and an unreachable device (LI), valid generated pairs of the convergence generators for all five device types (V) and the same line / structure mutations applied to some of them (VL, VS). Cases are deduplicated by content hash of " +
 		"all input files; a case is non-trivial if it differs from the unmutated original. " +
 		"Lines whose digit-normalised shape occurs more than 4 times in one text are skipped. " +
